@@ -2,8 +2,11 @@ package props
 
 import (
 	"bytes"
+	"context"
+	"crypto/tls"
 	"fmt"
 	"hash/fnv"
+	"net"
 	"sort"
 	"sync"
 	"sync/atomic"
@@ -12,6 +15,7 @@ import (
 	"time"
 
 	"github.com/fiorix/go-diameter/v4/diam"
+	"github.com/fiorix/go-diameter/v4/diam/dict"
 
 	"verifharness/ev"
 	"verifharness/lib"
@@ -150,7 +154,7 @@ type c19Logged struct {
 }
 
 // runC19 feeds one merge to the real connection loop and applies the oracle.
-func runC19(c *ev.Case, ctx *lib.Ctx, cc *c19Case, merge []c19Chunk, stepwise bool, withNotify bool) bool {
+func runC19(c *ev.Case, ctx *lib.Ctx, cc *c19Case, merge []c19Chunk, stepwise bool, withNotify bool, opts int) bool {
 	// every third run answers later, from another goroutine, in reverse order
 	deferred := (len(merge)+len(cc.streams))%3 == 0
 	var pending []*diam.Message
@@ -185,10 +189,28 @@ func runC19(c *ev.Case, ctx *lib.Ctx, cc *c19Case, merge []c19Chunk, stepwise bo
 			m.Answer(2001).WriteTo(dc)
 		}
 	})
-	conn, err := diam.NewConn(msc, "peer", h, ctx.Parser)
-	if err != nil {
-		c.Fail(sig("setup"), nil, nil, "NewConn: %v", err)
-		return false
+	// opts&1: the association is accepted by a Server that has a write timeout configured;
+	// opts&2: a writer stream has been pinned with SetWriterStream (it concerns plain Write
+	// calls only: answers still belong on the stream of their request)
+	var conn diam.Conn
+	if opts&1 != 0 {
+		srv := &diam.Server{Handler: h, Dict: ctx.Parser, WriteTimeout: time.Hour}
+		ln := memnet.NewListener()
+		go srv.Serve(ln)
+		defer ln.Close()
+		ln.Offer(msc)
+		withNotify = false
+		conn = c19Closer{msc}
+	} else {
+		var err error
+		conn, err = diam.NewConn(msc, "peer", h, ctx.Parser)
+		if err != nil {
+			c.Fail(sig("setup"), nil, nil, "NewConn: %v", err)
+			return false
+		}
+	}
+	if opts&2 != 0 {
+		msc.SetWriterStream(uint(7 + len(merge)%3))
 	}
 	var notify <-chan struct{}
 	describe := func() string {
@@ -397,6 +419,18 @@ func runC19(c *ev.Case, ctx *lib.Ctx, cc *c19Case, merge []c19Chunk, stepwise bo
 	return ok
 }
 
+// c19Closer stands in for the diam.Conn of a server-side connection (only Close is used).
+type c19Closer struct{ *diam.SCTPConn }
+
+func (c c19Closer) Close()                                       { c.SCTPConn.Close() }
+func (c19Closer) Write(b []byte) (int, error)                    { return 0, nil }
+func (c19Closer) WriteStream(b []byte, stream uint) (int, error) { return 0, nil }
+func (c19Closer) TLS() *tls.ConnectionState                      { return nil }
+func (c19Closer) Dictionary() *dict.Parser                       { return nil }
+func (c19Closer) Context() context.Context                       { return nil }
+func (c19Closer) SetContext(ctx context.Context)                 {}
+func (c19Closer) Connection() net.Conn                           { return nil }
+
 func TestC19(t *testing.T) {
 	rec := ev.Open(t, "C19")
 	defer rec.Close()
@@ -422,7 +456,7 @@ func TestC19(t *testing.T) {
 			mm := append([]c19Chunk(nil), m...)
 			for _, stepwise := range []bool{true, false} {
 				good := true
-				leak := runBubbleWD(t, rec, c, 60*time.Second, func() { good = runC19(c, ctx, cc, mm, stepwise, n%3 == 0) })
+				leak := runBubbleWD(t, rec, c, 60*time.Second, func() { good = runC19(c, ctx, cc, mm, stepwise, n%3 == 0, (n/3)%4) })
 				if leak != "" && !c.Failed() {
 					c.Fail(ev.Sig{"op": "bubble-leak"}, nil, nil, "goroutines left blocked: %s", leak)
 				}
@@ -451,7 +485,7 @@ func TestC19(t *testing.T) {
 			m := cc.randomMerge(c)
 			stepwise := rep == 0
 			good := true
-			leak := runBubbleWD(t, rec, c, 60*time.Second, func() { good = runC19(c, ctx, cc, m, stepwise, c.I%2 == 0) })
+			leak := runBubbleWD(t, rec, c, 60*time.Second, func() { good = runC19(c, ctx, cc, m, stepwise, c.I%2 == 0, (c.I/2)%4) })
 			if leak != "" && !c.Failed() {
 				c.Fail(ev.Sig{"op": "bubble-leak"}, nil, nil, "goroutines left blocked: %s", leak)
 			}
